@@ -459,7 +459,7 @@ def _streams(tier, rnd):
     bodies = []
     for rep in reps:
         forms = [bytes([5, rep, 0, 1]) + b'\x01\x02\x03\x04' + b'\x1f\x90']
-        if rep in (0, 1, 5, 9) or tier != 'quick':
+        if rep in (0, 1, 5, 9) or (tier != 'quick' and rep in (2, 3, 4, 6, 7, 8, 0x55, 0xff)):
             forms += [bytes([5, rep, 0, 4]) + bytes(range(16)) + b'\x00\x50',
                       bytes([5, rep, 0, 3, 0]) + b'\x00\x50',
                       bytes([5, rep, 0, 3, 1]) + b'x' + b'\x00\x50',
@@ -490,17 +490,22 @@ def twin(tier, seed):
         host, port = targets[req_type]
         for s in _streams(tier, rnd):
             n = len(s)
-            segs = list(_segmentations(n, maxcuts if n <= 16 else (1 if tier == 'quick' else 2)))
+            if tier == 'quick':
+                segs = list(_segmentations(n, 2 if n <= 16 else 1))
+            else:
+                segs = list(_segmentations(n, 3 if n <= 12 else (2 if n <= 20 else 1)))
             segs.append(tuple(range(1, n)))           # byte by byte
             for _ in range(4 if tier == 'quick' else 16):  # random denser segmentations
                 segs.append(tuple(sorted(rnd.sample(range(1, n), rnd.randint(1, n - 1)))))
             for cuts in segs:
                 chunks = _split(s, cuts)
                 discs = [None]
-                if len(cuts) <= 1 or tier != 'quick':
+                if len(cuts) <= 1:
                     discs += list(range(-1, len(chunks)))
-                else:
+                elif tier == 'quick':
                     discs += [rnd.randrange(-1, len(chunks))]
+                else:
+                    discs += sorted(set(rnd.randrange(-1, len(chunks)) for _ in range(2)))
                 for disc in discs:
                     v, P = run_history(req_type, host, port, chunks, disc)
                     evaluations += 1
@@ -518,8 +523,10 @@ def twin(tier, seed):
             'rule': 'one evaluation = one (request type, server byte stream, segmentation, disconnect position) run of the '
                     'real _SocksMachine checked after every chunk against an RFC 1928 oracle; non-trivial = the stream '
                     'reached the request-reply phase; distinct by (type, stream, cuts, disconnect)',
-            'bounds': 'method replies x reply codes %s x atyp {1,3,4,unknown} x tails {0,1,5 bytes}; segmentations with <= %d cuts '
-                      '+ bytewise + seeded random; disconnect at chunk boundaries' % ('12 codes' if tier == 'quick' else '0..255', maxcuts)}
+            'bounds': 'method replies x reply codes %s x atyp {1,3,4,unknown} x tails {0,1,5 bytes}; segmentations with <= %s cuts '
+                      '+ bytewise + seeded random; disconnect at every chunk boundary for <= 1 cut, at %s for more cuts'
+                      % (('12 codes', '2 (1 for streams > 16 bytes)', 'one seeded boundary') if tier == 'quick' else
+                         ('0..255 (IPv4 form; 12 codes for the other forms)', '3 (2 for streams of 13..20 bytes, 1 beyond)', 'two seeded boundaries'))}
 
 
 def _glue_checks():
